@@ -89,7 +89,7 @@ def run(eng, p):
     regs = regions(eng, r, p)
     eng.notes["outcome"] = outcome(r)
     if r["exc"]:
-        eng.fail("exception %s: %s" % (type(r["exc"][0]).__name__, r["exc"][0]), regions=regs, detail=r["exc"][1])
+        eng.fail("exception %s: %s" % (type(r["exc"][0]).__name__, r["exc"][0]), detail=r["exc"][1])
         return
     states = global_states(r)
     cmp = F.le if inst.mode == "min" else F.ge
